@@ -11,7 +11,7 @@ outcomes(fn, pv): every assignment to the return place, classified:
 """
 from .prov import is_call, mk_phi
 
-FROM_RESIDUAL = "core::ops::FromResidual::from_residual"
+FROM_RESIDUAL = "core::ops::try_trait::FromResidual::from_residual"
 
 
 def _is_dropflag(t):
@@ -99,7 +99,7 @@ def _classify(t, bb, idx, fn, pv):
         kind = "propagate"
         a = t[2][0]
         # (Try::branch(X) as Break).0
-        if a[0] == "field" and a[1][0] == "variant" and a[1][2] == "Break" and is_call(a[1][1], "core::ops::Try::branch"):
+        if a[0] == "field" and a[1][0] == "variant" and a[1][2] == "Break" and is_call(a[1][1], "core::ops::try_trait::Try::branch"):
             inner = a[1][1][2][0]
         else:
             inner = a
@@ -115,7 +115,7 @@ def try_sites(fn, pv):
     out = []
     for bi, t in fn.calls():
         from .facts import callee_path
-        if callee_path(t) != "core::ops::Try::branch":
+        if callee_path(t) != "core::ops::try_trait::Try::branch":
             continue
         out.append((bi, pv.operand_term(t["args"][0], bi, "term")))
     return out
